@@ -33,7 +33,9 @@ def preCheck (cfg : Config) (fs : Fs.Tree) (d : Defs) (l : Layer) : Res (Option 
     | some bl =>
       if bl.state < S_mountable then .ok none else
       match getMount d.mounts builddir with
-      | none => .ok (some ({ l with state := S_mountable }, 1000000))
+      | none =>
+        if l.mounts.length > 0 then .ok (some ({ l with state := S_error }, 1000000))
+        else .ok (some ({ l with state := S_mountable }, 1000000))
       | some mnt =>
         if mnt.fstype != b!"overlay" then .ok (some ({ l with state := S_error }, 1000000))
         else if mnt.source != buildPath cfg bl || mnt.source2 != upperPath cfg l
@@ -325,8 +327,9 @@ theorem preCheck_go (cfg : Config) (fs : Fs.Tree) (d : Defs) (l l2 : Layer) (n :
       · cases h
       · rename_i hst
         split at h
-        · simp only [Except.ok.injEq, Option.some.injEq, Prod.mk.injEq] at h
-          omega
+        · split at h <;>
+          · simp only [Except.ok.injEq, Option.some.injEq, Prod.mk.injEq] at h
+            omega
         · rename_i mnt hmnt
           split at h
           · simp only [Except.ok.injEq, Option.some.injEq, Prod.mk.injEq] at h
@@ -363,8 +366,11 @@ theorem preCheck_ret (cfg : Config) (fs : Fs.Tree) (d : Defs) (l l2 : Layer)
     · split at h
       · cases h
       · split at h
-        · simp only [Except.ok.injEq, Option.some.injEq, Prod.mk.injEq] at h
-          exact Or.inl h.1.symm
+        · split at h
+          · simp only [Except.ok.injEq, Option.some.injEq, Prod.mk.injEq] at h
+            exact Or.inr h.1.symm
+          · simp only [Except.ok.injEq, Option.some.injEq, Prod.mk.injEq] at h
+            exact Or.inl h.1.symm
         · split at h
           · simp only [Except.ok.injEq, Option.some.injEq, Prod.mk.injEq] at h
             exact Or.inr h.1.symm
